@@ -402,6 +402,8 @@ type Timer struct {
 	fn    Value // for vAfterFunc
 	fired bool
 	seq   int
+	period *Term // ticker: re-armed after every tick
+	owner  *Cell // the time.Ticker it belongs to
 }
 
 // fireTimer advances virtual time to the earliest pending timer and fires it. Called only when
@@ -434,9 +436,19 @@ func (e *Exec) fireTimer() bool {
 	// time never runs backwards
 	later := e.ts.BVCmp("bvslt", e.now, best.at)
 	e.now = e.ts.Ite(later, best.at, e.now)
-	if best.ch != nil {
+	if best.ch != nil && (best.period == nil || len(best.ch.buf) < 1) {
 		best.ch.buf = append(best.ch.buf, e.now)
 		best.ch.sendHB = append(best.ch.sendHB, hbClock{})
+	}
+	if best.period != nil {
+		// ticker: next tick one period after this one
+		at := e.ts.BVBin("bvadd", best.at, best.period)
+		e.assume(e.ts.BVCmp("bvsle", best.at, at))
+		nt := &Timer{at: at, seq: len(e.timers), ch: best.ch, period: best.period, owner: best.owner}
+		e.timers = append(e.timers, nt)
+		if best.owner != nil {
+			e.timerObjs[best.owner] = nt
+		}
 	}
 	if best.fn != nil {
 		fn := best.fn
